@@ -1,3 +1,4 @@
 import CrabModel.Num.ZNum
 import CrabModel.Scalar.Bound
 import CrabModel.Scalar.Interval
+import CrabModel.Fix.Semantics
